@@ -105,6 +105,7 @@ def ddx(t, x):
         u, v = ch
         return (ddx(u, x) * v - u * ddx(v, x)) / (v * v)
     if k == z3.Z3_OP_TO_REAL: return z3.RealVal(0)
+    if k == z3.Z3_OP_ITE: return z3.If(ch[0], ddx(ch[1], x), ddx(ch[2], x))
     raise Unsupported('cannot differentiate ' + t.decl().name())
 
 def mentions(t, x):
